@@ -346,7 +346,7 @@ def make_case(seed, n):
     return {"kind": "generate" if n % 2 == 0 else "merge", "n": n, "seed": seed}
 
 
-def run_shard(rec, shard, nshards):
+def _run_shard_workload(rec, shard, nshards):
     common.loop(rec, shard, nshards, N[rec.tier], CAP[rec.tier], lambda n: run_case(rec, make_case(rec.seed, n)))
 
 
@@ -397,3 +397,14 @@ def canaries(rec):
                                                                                  "nordicsemi.com", "cls", 0x1000, 64,
                                                                                  True, False, "update"))))
     return out
+
+
+FAULT_PLANE_OPS = ('mpi-generate', 'mpi-merge')
+
+
+def run_shard(rec, shard, nshards):
+    _run_shard_workload(rec, shard, nshards)
+    if shard == 5 % nshards:
+        # complete enumeration of the single file-boundary faults of this property's operations (faultplane.py)
+        from . import faultplane
+        faultplane.run(rec, ID, FAULT_PLANE_OPS)
